@@ -323,6 +323,9 @@ func c08Sources(c *core.Ctx) {
 				switch {
 				case strings.HasPrefix(l, "call:"):
 					nm := strings.TrimPrefix(l, "call:")
+					if i := strings.Index(nm, "#"); i >= 0 {
+						nm = nm[:i]
+					}
 					switch {
 					case strings.HasSuffix(nm, "Cache).GetIngressList"), strings.HasSuffix(nm, "Cache).GetIngress"), nm == "builtin:append", nm == "builtin:len", strings.HasSuffix(nm, "sortIngress"):
 					default:
